@@ -436,6 +436,8 @@ def run(tier):
     c14asm.part(rep, tier)
     from . import c14blk
     c14blk.part(rep, tier, validate)
+    from . import c14defrag
+    c14defrag.part(rep, tier)
     rep.notes["scenario_runs"] = len(jobs)
     rep.notes["socket_events_validated"] = sum(len(t) for t in traces)
     return rep.finish()
